@@ -658,7 +658,13 @@ ERROR_CODES = (400, 403, 413)
 
 def _make_handler():
     def _handler(**kw):
-        return _interp(_tl.stack[-1])
+        fr = _tl.stack[-1]
+        # the keyword arguments the router hands to the handler are the wildcard values of THIS request
+        # (plus what this request's own route hook injected)
+        fr['log'].append(dict(kind='form', tok=fr['tok'], where='handler kwargs',
+                              got=dict(kwargs=sorted([k, v] for k, v in kw.items())),
+                              want=dict(kwargs=sorted(fr['w_url_args']))))
+        return _interp(fr)
     return _handler
 
 
@@ -710,6 +716,7 @@ def _view(fr, light=False):
                           _flat({k: hd[k] for k in list(hd)}), _flat({k: hd.get(k) for k in list(hd)}),
                           'X-Never' in hd, hd.get('X-Never', 'dflt'), len(list(hd.values())),
                           repr(hd).startswith('<HeaderDict: {')]
+        out['cfg'] = _cfg_view(app)
         out['status'] = rs.status_code
         out['status_line'] = rs.status_line if fr.get('w_line') is not None else None
         ck = rs._cookies
@@ -748,9 +755,9 @@ def _want(fr):
     flat = _flat(wh)
     return dict(path=fr['path'], qs=fr['qs'], query=sorted(q), method=fr['method'], cookie_hdr=fr['cookie'],
                 req_cookies=sorted(cq), req_map_ok=True, repr_has_path=True, ext=fr.get('w_ext'),
-                app=fr['app'], route_own=True, url_args=[['x%d' % fr['app'], fr['path'][3:]]],
+                app=fr['app'], route_own=True, url_args=sorted(fr['w_url_args']),
                 hdrs=flat, hdr_map=[len(wh), sorted(wh), sorted(wh), True, flat, flat, False, 'dflt', len(wh), True],
-                status=fr['w_status'], status_line=fr.get('w_line'),
+                cfg=fr['w_cfg'], status=fr['w_status'], status_line=fr.get('w_line'),
                 cookies=sorted([k, v] for k, v in fr['w_cookies'].items()))
 
 
@@ -880,9 +887,27 @@ def _before_after(app, which):
     return hook
 
 
-def _route_hook(prefix_seen):
-    fr = _tl.stack[-1]
-    fr['log'].append(dict(kind='form', tok=fr['tok'], where='route_hook', got=dict(prefix=prefix_seen), want=dict(prefix='/r')))
+_ROUTE_PREFIX = {'r': '/r', 'rex': '/x', 're': '/e', 'int': '/i', 'float': '/f', 'path': '/pa', 'static': '/s'}
+
+
+def _route_hook_for(app):
+    def _route_hook(prefix_seen):
+        fr = _tl.stack[-1]
+        fr['log'].append(dict(kind='form', tok=fr['tok'], where='route_hook', got=dict(prefix=prefix_seen),
+                              want=dict(prefix=_ROUTE_PREFIX.get(fr.get('route_kind'), '/r'))))
+        if fr.get('inject'):
+            # a route hook that hands the handler one more keyword argument through request.url_args
+            app.request.url_args['user'] = fr['tok']
+    return _route_hook
+
+
+def _cfg_view(app):
+    """the options of an application and of its request object (they are that application's own)"""
+    try:
+        c, rc = app.config, app.request.config
+        return [c.max_body_size, rc.max_body_size, c.max_memfile_size, rc.max_memfile_size, bool(c.debug), bool(c.catchall)]
+    except Exception as e:  # noqa
+        return ['error', type(e).__name__]
 
 
 def _partial_404(route, params):
@@ -895,12 +920,21 @@ def _teapot_loop(err):
     return ombott.HTTPError(418, 'again')
 
 
+def _heard(key, v):
+    """what a listener notes of one environ change: key, value (shortened text unless plain) and the call that made
+    the change — a listener runs on the thread that changes the environ, and that thread's innermost scripted call is
+    on top of the harness stack"""
+    st = getattr(_tl, 'stack', None)
+    return [key, v if isinstance(v, (str, int, type(None))) else type(v).__name__, st[-1]['tok'] if st else None]
+
+
+def _entry_token(heard_entry):
+    return heard_entry[2]
+
+
 def _foreign(heard_entry, tok):
-    """an environ change heard by a listener that carries another call's token (values written by the scripted
-    actions all start with the token of their call)"""
-    import re
-    m = re.search(r't[ACE](?:n\d+|cc)*', str(heard_entry[1]))
-    return bool(m) and m.group(0) != tok and not (heard_entry[0] == 'x.note' and m.group(0) == tok)
+    """an environ change heard by a listener that another call made"""
+    return heard_entry[2] != tok
 
 
 def _interp(fr):
@@ -985,10 +1019,11 @@ def _interp_actions(fr):
                     fr['signed'] = False
         elif kind == 'req_del':
             if not fr.get('readonly'):
-                app.request['x.tmp'] = fr['tok']
-                del app.request['x.tmp']
+                key = 'x.tmp.' + fr['tok']
+                app.request[key] = fr['tok']
+                del app.request[key]
                 fr['log'].append(dict(kind='form', tok=fr['tok'], where='req_del',
-                                      got=dict(there='x.tmp' in app.request.environ), want=dict(there=False)))
+                                      got=dict(there=key in app.request.environ), want=dict(there=False)))
         elif kind == 'ext':
             # request.<name> = v keeps v in THIS request's environ
             app.request.verif_note = fr['tok'] + '.note'
@@ -1003,8 +1038,8 @@ def _interp_actions(fr):
             # request.on / off / emit used inside one handler (registered and removed again)
             heard = []
 
-            def cb(rq, key, v, _heard=heard):
-                _heard.append([key, v])
+            def cb(rq, key, v, _h=heard):
+                _h.append(_heard(key, v))
             un = app.request.on('env_changed', cb)
             app.request.emit('verif.nobody.listens')
             if not fr.get('readonly'):
@@ -1016,7 +1051,7 @@ def _interp_actions(fr):
             fr['log'].append(dict(kind='form', tok=fr['tok'], where='listen',
                                   got=dict(own=[h for h in heard if not _foreign(h, fr['tok'])],
                                            foreign=[h for h in heard if _foreign(h, fr['tok'])]),
-                                  want=dict(own=[] if fr.get('readonly') else [['x.note', fr['tok']]], foreign=[])))
+                                  want=dict(own=[] if fr.get('readonly') else [['x.note', fr['tok'], fr['tok']]], foreign=[])))
         elif kind == 'sess_mutate':
             # read the signed cookie, change the decoded value IN PLACE, report it: the decoded object belongs to
             # this request (every request decodes its own copy of the cookie)
@@ -1035,8 +1070,8 @@ def _interp_actions(fr):
             # actions run (nested calls into other applications, environ changes there), and is removed afterwards
             heard = []
 
-            def cb2(rq, key, v, _heard=heard):
-                _heard.append([key, v])
+            def cb2(rq, key, v, _h=heard):
+                _h.append(_heard(key, v))
             un = app.request.on('env_changed', cb2)
             inner = dict(fr, script=act[1])
             try:
@@ -1070,6 +1105,20 @@ def _interp_actions(fr):
             except Exception as e:  # noqa
                 note['made'] = 'raises ' + type(e).__name__
             fr['log'].append(dict(kind='note', tok=fr['tok'], where='response copy', got=note))
+        elif kind == 'args_write':
+            # code that adds to request.url_args (it belongs to this request)
+            app.request.url_args['user2'] = fr['tok']
+            fr['w_url_args'] = [p for p in fr['w_url_args'] if p[0] != 'user2'] + [['user2', fr['tok']]]
+        elif kind == 'new_app_from':
+            # ['new_app_from', 'ctor' | 'setup']: another application configured from THIS application's config
+            # namespace, whose options are then changed in place: this application's options stay what they were
+            if act[1] == 'ctor':
+                na = ombott.Ombott(app.config)
+            else:
+                na = ombott.Ombott()
+                na.setup(app.config)
+            fr['apps'].append(na)
+            change_options(na)
         elif kind == 'copy_off':
             # the copy is an object of its own: taking the stock cache-invalidation listener off the COPY must leave
             # this request's (and every other request's) invalidation in place
@@ -1206,6 +1255,16 @@ def _before_request_hook(app):
     return hook
 
 
+def change_options(na):
+    """in-place option changes on one application and on its request object"""
+    na.config.max_body_size = 4
+    na.request.config.max_body_size = 4
+    na.config.max_memfile_size = 3
+    na.request.config.max_memfile_size = 3
+    na.config.debug = not na.config.debug
+    na.config.catchall = not na.config.catchall
+
+
 def build_and_probe(na, tok, log):
     """routes (with filters) registered on a new application — possibly while other threads register theirs or
     serve — and one request through them: the application must have exactly the rules it was given"""
@@ -1238,7 +1297,17 @@ def do_call(apps, call, log, environ=None, path=None):
     import io
     import ombott
     if call.get('construct'):
-        na = ombott.Ombott(app_config(call['cfg'])) if call.get('cfg') else ombott.Ombott()
+        if call.get('from_app') is not None:
+            # configured from another application's config namespace (constructor or setup), then changed in place
+            src = apps[call['from_app']]
+            if call.get('mode') == 'setup':
+                na = ombott.Ombott()
+                na.setup(src.config)
+            else:
+                na = ombott.Ombott(src.config)
+            change_options(na)
+        else:
+            na = ombott.Ombott(app_config(call['cfg'])) if call.get('cfg') else ombott.Ombott()
         apps.append(na)
         log.append(dict(kind='constructed'))
         if call.get('routes'):
@@ -1251,8 +1320,12 @@ def do_call(apps, call, log, environ=None, path=None):
     else:
         route = call.get('route', 'r')
         seg = tok + call.get('pad', '')
+        num = sum(ord(ch) for ch in seg)
         path = {'r': '/r/' + seg, 'g405': '/g/' + seg, 'nope404': '/nope/' + seg, 'h404hook': '/h/zz/' + seg,
-                'badpath': '/r/' + seg + '\xff'}[route]
+                'badpath': '/r/' + seg + '\xff',
+                # rules with filtered wildcards (the filters are cached process-wide) and a rule without wildcards
+                'rex': '/x/%s/p' % seg.lower(), 're': '/e/%s' % seg.lower(), 'int': '/i/%d' % num,
+                'float': '/f/%d.5' % num, 'path': '/pa/%s/deep' % seg, 'static': '/s/static'}[route]
         body = form.encode('latin1') if form else b''
         env = {
             'REQUEST_METHOD': call.get('method', 'GET'), 'PATH_INFO': path, 'QUERY_STRING': call.get('qs', ''),
@@ -1303,7 +1376,21 @@ def do_call(apps, call, log, environ=None, path=None):
               log=log, w_hdrs={}, w_status=200, w_cookies={}, w_final='text', w_body='done:' + tok,
               handler_runs=True, file_wrapper=call.get('file_wrapper'), domain=call.get('domain'),
               w_ext=call.get('w_ext'))
-    if environ is None and call.get('route', 'r') != 'r':
+    j = call['app']
+    route = call.get('route', 'r') if environ is None else 'r'
+    if route in ('rex', 're', 'int', 'float', 'path', 'static'):
+        seg = tok + call.get('pad', '')
+        num = sum(ord(ch) for ch in seg)
+        fr['w_url_args'] = {'rex': [['n%d' % j, seg.lower()]], 're': [['e%d' % j, seg.lower()]], 'int': [['i%d' % j, num]],
+                            'float': [['f%d' % j, num + 0.5]], 'path': [['p%d' % j, seg + '/deep']], 'static': []}[route]
+        if call.get('inject'):
+            fr['w_url_args'] = fr['w_url_args'] + [['user', tok]]      # (written by this request's route hook)
+    else:
+        fr['w_url_args'] = [['x%d' % j, path[3:]]]
+    fr['route_kind'] = route
+    fr['inject'] = call.get('inject')
+    fr['w_cfg'] = _cfg_view(apps[j])
+    if environ is None and call.get('route', 'r') in ('g405', 'nope404', 'h404hook', 'badpath'):
         # the scripted handler is not reached: the framework answers by itself
         fr['handler_runs'] = False
         fr['script'] = []
@@ -1379,7 +1466,15 @@ def _equip(a, i):
     a.on('after_request')(_before_after(a, 'after_request'))      # decorator form
     a.add_hook('after_request', _noop)
     a.remove_hook('after_request', _noop)
-    a.on_route('/r', _route_hook)
+    rh = _route_hook_for(a)
+    for pfx in sorted(set(_ROUTE_PREFIX.values())):
+        a.on_route(pfx, rh)
+    a.route('/x/<n%d.rex([a-z0-9]+)>/p' % i, method='ANY', callback=a._verif_handler)
+    a.route('/e/<e%d:re([a-z0-9]+)>' % i, method='ANY', callback=a._verif_handler)
+    a.route('/i/<i%d:int>' % i, method='ANY', callback=a._verif_handler)
+    a.route('/f/<f%d:float>' % i, method='ANY', callback=a._verif_handler)
+    a.route('/pa/<p%d:path>' % i, method='ANY', callback=a._verif_handler)
+    a.route('/s/static', method='ANY', callback=a._verif_handler)
     a.on_route('/tmp')(_noop)                        # decorator form, removed again
     a.remove_route_hook('/tmp')
     type(a)._hooks                                   # class access of the cached property
@@ -1789,7 +1884,9 @@ def gen_api_actions(rng, tok, has_form=False, readonly=False):
     if r < 0.98:
         return [['hdr_append', name, tok + 'c1'], ['hdr_append', name, tok + 'c2'],
                 ['resp_copy'] + (['http'] if rng.random() < 0.5 else []), ['see']]
-    return [['copy_off'], ['req_set', 'QUERY_STRING', 'o=%so' % tok], ['see']]
+    if r < 0.99:
+        return [['copy_off'], ['req_set', 'QUERY_STRING', 'o=%so' % tok], ['see']]
+    return [['args_write'], ['see']]
 
 
 def gen_terminal(rng, tok):
@@ -1815,6 +1912,15 @@ def gen_call_kind(rng, cfg_names, app_is_default):
     if r < 0.90 or 'domain' not in (cfg_names or ()) or app_is_default:
         return dict(method='HEAD')
     return dict(domain=True)
+
+
+def gen_wild_kind(rng):
+    """a request on a rule with a filtered wildcard, or on a rule without wildcards (route hook injecting a kwarg)"""
+    k = rng.choice(['rex', 'rex', 're', 'int', 'float', 'path', 'static', 'static'])
+    kw = dict(route=k)
+    if rng.random() < 0.5:
+        kw['inject'] = True
+    return kw
 
 
 def _tokens(calls, acc):
@@ -1848,8 +1954,7 @@ def arrangement_failure(case, obs):
             if rec['kind'] in ('see', 'form'):
                 if rec.get('where') == 'listen' and rec['got'].get('foreign') and \
                         {k: v for k, v in rec['got'].items() if k != 'foreign'} == {k: v for k, v in rec['want'].items() if k != 'foreign'}:
-                    import re
-                    ft = sorted({re.search(r't[ACE](?:n\d+|cc)*', str(h[1])).group(0) for h in rec['got']['foreign']})
+                    ft = sorted({str(_entry_token(h)) for h in rec['got']['foreign']})
                     return ('thread %d call %s (listen): its listener heard environ changes of other calls; foreign tokens: %s; heard %s'
                             % (ti, rec['tok'], ' '.join(ft), rec['got']['foreign']))
                 if rec['got'] != rec['want']:
